@@ -554,6 +554,68 @@ fn run_listener() {
         l.k().clear();
     }
 
+    // ---- S9: the client gives up right after connect(): RST at once (SO_LINGER 0 close; the connection is reset while it still
+    //          waits in the listener's queue), RST after 1 ms, orderly FIN without a request. The kernel wrote a record for each of
+    //          these connections; the proxy accepts them all the same, so the record must be consumed, and the source port, used
+    //          again without a fresh record, must be refused. Batches of 4 connections so that some are still queued when reset.
+    for (vi, variant) in ["reset at once", "reset after 1 ms", "FIN without a request"].iter().enumerate() {
+        for ci in 0..3usize {
+            let (r, _) = callers[ci];
+            let mut socks = Vec::new();
+            for k in 0..4u16 {
+                match BoundSock::bind_retry(Ipv4Addr::LOCALHOST, l.src(0x9a01 + (vi as u16) * 0x100 + (ci as u16) * 0x10 + k)) {
+                    Ok(b) => socks.push(b),
+                    Err(e) => l.fail(serde_json::json!({"property": "C07", "case": "client gives up right after connect", "got": format!("bind: {}", e)})),
+                }
+            }
+            for b in socks.iter() {
+                l.k().put(b.port, &r);
+            }
+            let mut ports = Vec::new();
+            for b in socks {
+                let p = b.port;
+                match b.connect(l.proxy) {
+                    Ok(c) => {
+                        match vi {
+                            0 => drop(c),
+                            1 => {
+                                std::thread::sleep(Duration::from_millis(1));
+                                drop(c)
+                            }
+                            _ => c.close_fin(),
+                        }
+                        ports.push(p);
+                    }
+                    Err(e) => {
+                        l.k().del_raw([TCP, p as u32]);
+                        l.fail(serde_json::json!({"property": "C07", "case": "client gives up right after connect", "got": format!("connect: {}", e)}));
+                    }
+                }
+            }
+            for p in ports {
+                let what = format!("client gives up right after connect ({})", variant);
+                let h = format!("K(p, uid {} is_root {} dest {}:{}) C(p) {}", r.uid, r.is_root, r.dst, r.dport, variant);
+                l.n.fetch_add(1, Ordering::SeqCst);
+                if !vx_wait_until(Duration::from_secs(3), || l.k().get(p).is_none()) {
+                    l.fail(serde_json::json!({"property": "C07", "case": what, "history": h, "client_source_port": p,
+                        "got": "record still in the kernel map 3 s later", "want": "the record is consumed when the connection is accepted"}));
+                }
+                // whatever the proxy left in the map is what the next connection from this port meets
+                match l.open(p, None) {
+                    Ok(mut c) => {
+                        l.request(&format!("source port reused without a fresh record after: {}", what), &format!("{}; C(p)", h), &mut c, Want::Refused);
+                    }
+                    Err(e) if vi == 2 && (e.contains("os error 99") || e.contains("annot assign")) => {
+                        println!("VXW-NOTE source port {} still in TIME_WAIT after the FIN close: reuse not checked", p);
+                    }
+                    Err(e) => l.fail(serde_json::json!({"property": "C07", "case": what, "got": e})),
+                }
+                l.k().del_raw([TCP, p as u32]);
+            }
+        }
+    }
+    l.k().clear();
+
     // ---- S8: what the agent reports about the served connections (status summary): user and destination of the records
     {
         let other_uid = [1u32, 2, 65534].into_iter().find(|u| user_name(*u).is_some());
